@@ -32,6 +32,46 @@ CHECKS = {
             "DESIGN.md 7 C14"),
 }
 
+CHECKS.update({
+    "C13": ("fault_enumeration",
+            TECH + "every truncation offset x 6 simulated stream kinds x a seeded call history per generated archive, plus read-error, "
+            "skip-failure and seek-error faults; bounded liveness measured in seam steps, heap measured by the allocator ledger",
+            "Fault enumeration over truncation offsets and stream kinds (complete for each sampled archive up to 1500 offsets), "
+            "exploration over archives (plain, extreme length fields, corrupted, random) and histories. Oracle: stream calls per "
+            "drive <= 64 + 2*len + out/8 + 8*ops (about 5x the observed maximum), peak ledgered heap <= 8 MiB + 2*len, CPU watchdog "
+            "for loops that cross no seam; decoders on endless/self-referential input must stop at the declared length.",
+            "Liveness in simulated steps, not wall time; entries declaring more than 4 MiB are read in bounded pieces rather than "
+            "decoded in full; CLI commands covered by the C08/C07 CLI scenarios, not here.",
+            "DESIGN.md 7 C13"),
+    "C15": ("exploration",
+            TECH + "seeded call histories and seeded interleavings of 1-3 readers (real threads parked on a baton, switch decisions at "
+            "every stream/allocator/filesystem/progress seam) checked against an executable reference reader model",
+            "Exploration: each run compares every API observation of every reader (headers, fake flags, read bytes, verdicts, "
+            "extraction results and files on SimFS) with a 150-line reference model fed from a canonical traversal; directory "
+            "re-presentation per policy, deferred-symlink order, sticky end and reader independence under interleaving are model rules.",
+            "Trusted: H/B/V of the model come from the same library's canonical traversal; SimFS semantics (validated against the kernel); "
+            "state shared only inside seam-free stretches is not reachable by the baton schedule.",
+            "DESIGN.md 7 C15, appendix D"),
+    "C16": ("exploration",
+            TECH + "the stream-kind seam itself: each generated archive (optionally truncated, optionally behind a self-extractor "
+            "prefix or marker+decoy) is traversed three ways through six simulated stream kinds and compared with the seekable-file reference",
+            "Exploration with two enumerated sub-ranges (all prefix lengths 0..64 by run index; every run covers all 6 kinds x 3 "
+            "traversal modes). Oracle: headers (incl. raw header digest), member bytes and check verdicts equal those of the bare "
+            "archive read from a seekable file. Prefix bytes are filtered by an independent scanner written from the statement.",
+            "Sources answer short only at end of input; pipes are non-seekable cookie streams; prefixes are a subset of the allowed "
+            "ones (filler never contains '-' or 'L').",
+            "DESIGN.md 7 C16"),
+    "C20": ("fault_enumeration",
+            TECH + "allocator and handle ledgers behind link-time wrappers; for each sampled (archive, history) pair abandonment at "
+            "every prefix and failure of every library allocation are enumerated",
+            "Fault enumeration, complete over X-ABANDON(j) for every j and A-FAIL(k) for every k for each sampled pair; exploration "
+            "over archives (nested directories, dangerous symlinks, MacBinary members, multi-extended-header levels), histories, "
+            "stream kinds incl. open-by-name, directory policies. Oracle: ledger empty and no handle open after the two free calls; "
+            "the call that met the failing allocation returns its failure value (NULL/0, or a re-presented entry before NULL).",
+            "libc-internal allocations (stdio buffers) are outside the ledger; sanitizers catch invalid accesses on the failure paths.",
+            "DESIGN.md 7 C20"),
+})
+
 NOT_APPLICABLE = {
     "C01": "pure function of the compressed bytes (decode(serialise(cmds)) == expand(cmds)): no schedule, clock, fault or stream behaviour to simulate",
     "C02": "pure function of the compressed bytes (adaptive tree is internal state of a deterministic fold): nothing for a simulator to vary",
